@@ -30,8 +30,9 @@ mod imp {
         match a.cmd() {
             "random" => random(&a),
             "replay" => replay(&a),
+            "many" => many(&a),
             _ => {
-                eprintln!("usage: meta random|replay ...");
+                eprintln!("usage: meta random|replay|many ...");
                 std::process::exit(2)
             }
         }
@@ -347,4 +348,104 @@ mod imp {
         w.flush().unwrap();
         println!("{}", json!({"histories":count,"in_unwinding_context":unwinding,"events":events,"outcomes":outcomes,"samples":samples}));
     }
+    /// One table with MORE THAN 256 registered types (the const-generic family R<9>..R<308> next to
+    /// the eight hand-written ones), some registered twice, a sample present in the world; then
+    /// get / get_mut on one object of every type and a complete iter() and iter_mut().  Recorded
+    /// without the probed borrow table (projection); validated by MetaTrace with NT = 308.
+    fn many(a: &Args) {
+        let out = a.get("out").expect("--out");
+        let seed: u64 = a.num("seed", 1);
+        let count: usize = a.num("count", 1);
+        let nt: usize = a.num("nt", 308);
+        let bad = list(a, "bad");
+        let mut rng = StdRng::seed_from_u64(seed);
+        let mut w = BufWriter::new(File::create(out).unwrap());
+        let (mut events, mut somes, mut regs, mut present) = (0usize, 0usize, 0usize, 0usize);
+        for run in 0..count {
+            let unw = run % 2 == 1;
+            let evs = shredh::unwind::maybe_unwinding(unw, || {
+                let (mut m, reset) = Machine::new(nt, &bad, rng.gen_range(0..1000), nt + 8, 4, json!({"run": run + 1, "unw": unw, "many": true}));
+                m.probe_on = false;
+                let mut evs = vec![reset];
+                // every type once, in a random order (so that any type can end up in a late slot) ...
+                let mut order: Vec<usize> = (1..=nt).collect();
+                order.shuffle(&mut rng);
+                let unregistered: Vec<usize> = order.split_off(nt - 6);
+                for (i, t) in order.iter().enumerate() {
+                    evs.push(m.reg(*t));
+                    // ... some of them again right away or much later
+                    if rng.gen_bool(0.03) {
+                        evs.push(m.reg(*t));
+                    }
+                    if i > 0 && rng.gen_bool(0.06) {
+                        evs.push(m.reg(order[rng.gen_range(0..i)]));
+                    }
+                }
+                for _ in 0..12 {
+                    evs.push(m.reg(order[rng.gen_range(order.len() - 60..order.len())]));
+                }
+                // a sample of early, late and unregistered types is present
+                let mut pres: Vec<usize> = Vec::new();
+                for (i, t) in order.iter().enumerate() {
+                    let p = if i < 20 || i + 70 > order.len() { 0.5 } else { 0.08 };
+                    if rng.gen_bool(p) {
+                        pres.push(*t);
+                    }
+                }
+                pres.push(unregistered[0]);
+                pres.shuffle(&mut rng);
+                for t in &pres {
+                    evs.push(m.ins(*t, 0, rng.gen_range(0..1000)));
+                }
+                // get / get_mut on the loose object of every type
+                for t in 1..=nt {
+                    evs.push(m.get_loose(t, t % 2 == 0));
+                }
+                // the same through typed guards of some present ones
+                for t in pres.iter().take(25) {
+                    let g = m.free_guard().unwrap();
+                    let e = m.fetch(*t, 0, "w", g);
+                    let okf = e["out"] == "ok";
+                    evs.push(e);
+                    if okf {
+                        evs.push(m.get_via(g, true));
+                        evs.push(m.get_via(g, false));
+                        evs.push(m.drop_guard(g));
+                    }
+                }
+                // complete iter() and iter_mut(), items kept alive until the iterator is exhausted
+                for k in ["r", "w"] {
+                    evs.push(m.iter(k, 1));
+                    for _ in 0..nt + 2 {
+                        let g = m.free_guard().unwrap();
+                        let e = m.next(1, g);
+                        let stop = e["out"] == "none";
+                        evs.push(e);
+                        if stop {
+                            break;
+                        }
+                    }
+                    for g in m.guard_ids() {
+                        evs.push(m.drop_guard(g));
+                    }
+                    evs.push(m.idrop(1));
+                }
+                drop(m);
+                evs
+            });
+            for mut e in evs {
+                if let Some(o) = e.as_object_mut() {
+                    o.remove("b");
+                }
+                events += 1;
+                somes += (e["out"] == "some") as usize;
+                regs += (e["ev"] == "reg") as usize;
+                present += (e["ev"] == "ins") as usize;
+                write_events(&mut w, &[e]);
+            }
+        }
+        w.flush().unwrap();
+        println!("{}", json!({"histories":count,"types":nt,"events":events,"register_calls":regs,"present":present,"some_outcomes":somes}));
+    }
+
 }
